@@ -35,6 +35,12 @@ pub open spec fn event_ok(o: OsIpcSelectionResult, r: IpcSelectionResult) -> boo
         OsIpcSelectionResult::ChannelClosed(id) => r matches IpcSelectionResult::ChannelClosed(id2) && id2 == id,
     }
 }
+// std's slice sorts: the result is a rearrangement of the input.  Nothing is said about the order
+// (in particular not about the relative order of equal keys: `sort_unstable*` does not keep it).
+pub assume_specification<T, K: core::cmp::Ord, F: FnMut(&T) -> K>[ <[T]>::sort_unstable_by_key ](s: &mut [T], f: F)
+    ensures final(s)@.to_multiset() == old(s)@.to_multiset();
+pub assume_specification<T, K: core::cmp::Ord, F: FnMut(&T) -> K>[ <[T]>::sort_by_key ](s: &mut [T], f: F)
+    ensures final(s)@.to_multiset() == old(s)@.to_multiset();
 impl OsIpcReceiverSet {
     #[verifier::external_body]
     pub fn add(&mut self, receiver: OsIpcReceiver, Tracked(g): Tracked<&mut G>) -> (r: Result<u64, IoError>)
